@@ -349,17 +349,24 @@ func runNyctTrips(c *Ctx) {
 	// start time: group 1 of TripIDRegex = six digits; integer arithmetic only; HH:MM:SS format
 	{
 		fname := shortName(upd)
-		okRe := false
+		okRe, okFmt, gotFmt := false, false, ""
 		if sp := p.SSAPkg[pkgPathOf("nycttrips")]; sp != nil {
 			if g, ok := sp.Members["TripIDRegex"].(*ssa.Global); ok {
 				if pat, ok := c.globalRegexpPattern(g); ok {
 					if rx, err := syntax.Parse(pat, syntax.Perl); err == nil {
 						okRe = firstGroupIsSixDigits(rx)
+						// the whole id format (oracle, DESIGN A.4): the same language as the documented NYCT pattern --
+						// compared after parsing, so spelling (\d for [0-9], ...) does not matter
+						if want, err2 := syntax.Parse(nyctTripIDPattern, syntax.Perl); err2 == nil {
+							okFmt = rx.Simplify().String() == want.Simplify().String()
+							gotFmt = rx.Simplify().String()
+						}
 					}
 				}
 			}
 		}
 		c.Check(okRe, "NYCT", "nycttrips.TripIDRegex", "origin time = first six digits of the trip id", "-", "capture group 1 of TripIDRegex is [0-9]{6} at the start of the id", "TripIDRegex's first capture group is not exactly six leading digits")
+		c.Check(okFmt, "NYCT", "nycttrips.TripIDRegex", "NYCT trip id format", "-", "the pattern is the documented one: six digits, `_`, a route of one or two characters, two separator characters, N or S, an optional path identifier", "TripIDRegex accepts another set of ids than the NYCT format ("+gotFmt+" instead of "+nyctTripIDPattern+"): ids of the format that it rejects get no start time (e.g. ids that end right after the direction letter)")
 		n := 0
 		for _, fs := range collectFieldStores(c.regionOf(upd), "proto.TripDescriptor") {
 			if fs.field != "StartTime" {
@@ -994,7 +1001,11 @@ func runNyctAlerts(c *Ctx) {
 			}
 			nTrue++
 			e := b.bind(tup[0])
-			good := strings.Contains(e, "strconv.Atoi(slice(proto:MercuryEntitySelector.SortOrder?,(strings.LastIndex(proto:MercuryEntitySelector.SortOrder?,const:\":\") + const:1):)")
+			good := strings.Contains(e, "strconv.Atoi(slice(proto:MercuryEntitySelector.SortOrder?,(strings.LastIndex(proto:MercuryEntitySelector.SortOrder?,const:\":\") + const:1):)") ||
+				// the same spelled with the byte search and the general integer parser, base 10
+				strings.Contains(e, "strconv.ParseInt(slice(proto:MercuryEntitySelector.SortOrder?,(strings.LastIndexByte(proto:MercuryEntitySelector.SortOrder?,const:58) + const:1):),const:10,") ||
+				strings.Contains(e, "strconv.Atoi(slice(proto:MercuryEntitySelector.SortOrder?,(strings.LastIndexByte(proto:MercuryEntitySelector.SortOrder?,const:58) + const:1):)") ||
+				strings.Contains(e, "strconv.ParseInt(slice(proto:MercuryEntitySelector.SortOrder?,(strings.LastIndex(proto:MercuryEntitySelector.SortOrder?,const:\":\") + const:1):),const:10,")
 			if nTrue == 1 {
 				ok = good
 			} else {
@@ -1031,7 +1042,7 @@ func runNyctAlerts(c *Ctx) {
 						}
 						// a computed flag: it must be one of the three tests itself
 						e := b.bind(flag)
-						if !(strings.Contains(e, "strconv.Atoi(") || strings.Contains(e, "strings.LastIndex(") || strings.Contains(e, "proto.HasExtension(")) {
+						if !(strings.Contains(e, "strconv.Atoi(") || strings.Contains(e, "strconv.ParseInt(") || strings.Contains(e, "strings.LastIndex") || strings.Contains(e, "proto.HasExtension(")) {
 							bad = "the flag returned at " + p.ipos(ret) + " is " + clip(e, 60)
 						}
 						return
@@ -1041,9 +1052,10 @@ func runNyctAlerts(c *Ctx) {
 					}
 					nFalse++
 					legit := hasGuard(gs, "-", "proto.HasExtension(", "E_MercuryEntitySelector") ||
-						hasGuard(gs, "+", "strings.LastIndex(", "< const:0") || hasGuard(gs, "-", "strings.LastIndex(", ">= const:0") ||
-						hasGuard(gs, "+", "strings.LastIndex(", "== const:-1") || hasGuard(gs, "-", "strings.LastIndex(", "!= const:-1") ||
-						hasGuard(gs, "+", "strconv.Atoi(", "#1 != const:nil") || hasGuard(gs, "-", "strconv.Atoi(", "#1 == const:nil")
+						hasGuard(gs, "+", "strings.LastIndex", "< const:0") || hasGuard(gs, "-", "strings.LastIndex", ">= const:0") ||
+						hasGuard(gs, "+", "strings.LastIndex", "== const:-1") || hasGuard(gs, "-", "strings.LastIndex", "!= const:-1") ||
+						hasGuard(gs, "+", "strconv.Atoi(", "#1 != const:nil") || hasGuard(gs, "-", "strconv.Atoi(", "#1 == const:nil") ||
+						hasGuard(gs, "+", "strconv.ParseInt(", "#1 != const:nil") || hasGuard(gs, "-", "strconv.ParseInt(", "#1 == const:nil")
 					if !legit {
 						bad = "`false` is answered at " + p.ipos(ret) + " under " + clip(strings.Join(gs, " "), 160)
 					}
@@ -1361,6 +1373,11 @@ func runNyctAlerts(c *Ctx) {
 			if pat, ok := c.globalRegexpPattern(g); ok {
 				if rx, err := syntax.Parse(pat, syntax.Perl); err == nil {
 					okRe = rx.MaxCap() == 3 && strings.Contains(pat, "#EL")
+					// the same language as the documented pattern (oracle): three characters of station, optional N/S,
+					// the marker, the elevator
+					if want, err2 := syntax.Parse(elevatorIDPattern, syntax.Perl); err2 == nil && rx.Simplify().String() != want.Simplify().String() {
+						okRe = false
+					}
 				}
 			}
 		}
@@ -1905,6 +1922,17 @@ func scaledBeforeDivided(ins []ssa.Instruction) (bool, string) {
 					if ok, why := uses(x, d+1); !ok {
 						return false, why
 					}
+				case *ssa.Call:
+					// handed to a helper of the library: what the helper does with its parameter
+					if h := x.Call.StaticCallee(); h != nil && !x.Call.IsInvoke() && strings.HasPrefix(fnPkgPath(h), modPath) && len(h.Blocks) > 0 {
+						for i, a := range x.Call.Args {
+							if a == v && i < len(h.Params) {
+								if ok, why := uses(h.Params[i], d+1); !ok {
+									return false, why
+								}
+							}
+						}
+					}
 				case *ssa.BinOp:
 					n++
 					if x.Op != token.MUL {
@@ -1944,3 +1972,10 @@ func scaledBeforeDivided(ins []ssa.Instruction) (bool, string) {
 	}
 	return true, ""
 }
+
+// nyctTripIDPattern: the NYCT trip id format (oracle, transcribed from the MTA's GTFS-realtime documentation:
+// <origin time in hundredths of a minute>_<route>..<direction><path identifier, may be empty>).
+const nyctTripIDPattern = `^([0-9]{6})_([[:alnum:]]{1,2})..([SN])([[:alnum:]]*)$`
+
+// elevatorIDPattern: ids of elevator alerts (oracle): <3-character station><N|S or nothing>#EL<elevator>.
+const elevatorIDPattern = "([[:alnum:]]{3}?)([SN]?)#EL(.*)"
